@@ -98,6 +98,14 @@ pub fn corpus() -> Vec<(&'static str, IncCfg, Vec<Op>)> {
         Op::NewEpoch, Op::Snapshot, Op::NewEpoch, Op::Snapshot,
         Op::Claim { sender: 1 }, Op::Claim { sender: 2 }, Op::Claim { sender: 1 },
     ]));
+    // two flows, sixty unclaimed epochs each (120 epoch steps in one claim, at most 100 per flow): the rewards query and the claim
+    // must walk the same epochs of every flow
+    let c = cfg_base(3, 0);
+    let mut two: Vec<Op> = vec![open_pos(&c, 1, 1000, 86_400), open_pos(&c, 2, 500, 86_400), Op::NewEpoch, Op::Snapshot,
+                                flow(&c, 3, 1, 9_000_000, Some(90)), flow(&c, 4, 0, 6_000_000, Some(95))];
+    for _ in 0..60 { two.push(Op::NewEpoch); two.push(Op::Snapshot); }
+    two.extend(vec![Op::Claim { sender: 1 }, Op::Claim { sender: 2 }, Op::Claim { sender: 1 }]);
+    v.push(("two_flows_sixty_unclaimed_epochs", c.clone(), two));
     // a position opened and claimed in the same epoch keeps its weight (the code as found lost it)
     let c = cfg_base(10, 1);
     v.push(("open_then_claim_same_epoch", c.clone(), vec![
